@@ -13,16 +13,20 @@ def c06_ops(rng, tier):
     for _ in range(n):
         k = rng.random()
         y, m, d = rand_date(rng)
-        if k < 0.35:
+        if k < 0.2:
             L.append("term.of %d %d %d" % (y, m, d))
+        elif k < 0.35:
+            L.append("term.ofd %d %d %d" % (y, m, d))
         elif k < 0.7:
             L.append("term.oftime %d %d %d %d %d %d" % (y, m, d, rng.choice([0, 23, rng.randint(0, 23)]), rng.randint(0, 59), rng.randint(0, 59)))
         elif k < 0.8:
             L.append("term.day %d %d" % (rng.randint(0, 10001), rng.randint(0, 23)))
         elif k < 0.9:
             L.append("term.next %d %d %d" % (rng.randint(1, 10000), rng.randint(0, 23), rng.choice([0, 1, -1, 24, -24, rng.randint(-100, 100), rng.randint(-300000, 300000)])))
-        else:
+        elif k < 0.95:
             L.append("term.new %d %d" % (rng.randint(-5, 10005), rng.randint(-60, 60)))
+        else:
+            L.append("term.byname %d %d" % (rng.randint(1, 9998), rng.choice([rng.randint(0, 23), rng.randint(-30, 50)])))
     return L
 
 
@@ -49,6 +53,9 @@ def c06_instants(tier, seed, tmp, broken, k_fail, s_fail, ev_cov):
             t = sod + ds
             if 0 <= t < 86400:
                 probes.append("term.oftime %d %d %d %d %d %d" % (y, m, d, t // 3600, t % 3600 // 60, t % 60))
+        # the day-level views ON the first day of the term (where a look-up that only walks one way is wrong): both getters
+        probes.append("term.of %d %d %d" % (y, m, d))
+        probes.append("term.ofd %d %d %d" % (y, m, d))
     inp = ("\n".join(probes) + "\n").encode()
     H = subprocess.run([TYMEH, "exec"], input=inp, stdout=subprocess.PIPE).stdout.decode().split("\n")
     M = subprocess.run([TYMED, "exec"], input=inp, stdout=subprocess.PIPE).stdout.decode().split("\n")
